@@ -421,6 +421,127 @@ func ruleC04Cursor(r *Run) {
 		}
 	}
 	r.Floor("C05-NOSKIP", 1)
+	ruleC05Outside(r, m, func(in ssa.Instruction) bool {
+		for _, h := range hcalls {
+			if h.in.(ssa.Instruction) == in {
+				return true
+			}
+		}
+		return false
+	})
+}
+
+// C05-OUTSIDE: the abort cursor is consulted in exactly one place, the executor loop. A handler that the
+// request core starts in any other way — a direct call of a func(*Context) value from the dispatcher, one of
+// its callers or a function they reach by static calls — runs whether or not the chain was aborted. The only
+// dynamic func(*Context) calls allowed there are the executor's own and the OnError / OnPanic hooks (which
+// are not part of the chain).
+func ruleC05Outside(r *Run, m *chainModel, isExec func(ssa.Instruction) bool) {
+	w := r.W
+	rule := "C05-OUTSIDE"
+	ctxN := w.Named("rux", "Context")
+	hooks := []*types.Var{w.Field("rux", "Router", "OnError"), w.Field("rux", "Router", "OnPanic")}
+	isHandlerSig := func(t types.Type) bool {
+		sg, ok := t.Underlying().(*types.Signature)
+		return ok && sg.Recv() == nil && sg.Params().Len() == 1 && sg.Results().Len() == 0 && isNamedPtr(sg.Params().At(0).Type(), ctxN)
+	}
+	// the request core: entry points and everything they reach by static calls inside the root package,
+	// with the closures declared in those functions
+	scope := map[*ssa.Function]bool{}
+	var add func(f *ssa.Function)
+	add = func(f *ssa.Function) {
+		if f == nil || scope[f] || f.Blocks == nil || !w.InModule(f) || f.Pkg == nil || f.Pkg != w.Dispatcher().Pkg {
+			return
+		}
+		scope[f] = true
+		eachInstr(f, func(in ssa.Instruction) {
+			if c, ok := in.(ssa.CallInstruction); ok {
+				add(staticCallee(c))
+			}
+			if mc, ok := in.(*ssa.MakeClosure); ok {
+				if g, ok := mc.Fn.(*ssa.Function); ok {
+					add(g)
+				}
+			}
+		})
+	}
+	add(w.Dispatcher())
+	add(w.Fn("rux", "Router.ServeHTTP"))
+	add(w.Fn("rux", "Router.HandleContext"))
+	usedAsValue := func(f *ssa.Function) bool {
+		used := false
+		for _, g := range w.Funcs {
+			eachInstr(g, func(in ssa.Instruction) {
+				for _, op := range in.Operands(nil) {
+					if *op != ssa.Value(f) {
+						continue
+					}
+					if c, ok := in.(ssa.CallInstruction); ok && c.Common().Value == ssa.Value(f) {
+						own := false
+						for _, a := range c.Common().Args {
+							if a == ssa.Value(f) {
+								own = true
+							}
+						}
+						if !own {
+							continue
+						}
+					}
+					used = true
+				}
+			})
+		}
+		return used
+	}
+	n := 0
+	var fns []*ssa.Function
+	for _, f := range w.Funcs {
+		if scope[f] {
+			fns = append(fns, f)
+		}
+	}
+	for _, f := range fns {
+		k := 0
+		eachInstr(f, func(in ssa.Instruction) {
+			c, ok := in.(ssa.CallInstruction)
+			if !ok || c.Common().IsInvoke() {
+				return
+			}
+			cc := c.Common()
+			if !isHandlerSig(cc.Value.Type()) {
+				return
+			}
+			if sc := staticCallee(c); sc != nil {
+				// a named function or literal called directly: a handler only when it also travels as a value
+				if sc.Parent() != nil || !usedAsValue(sc) {
+					return
+				}
+			}
+			n++
+			k++
+			construct := fmt.Sprintf("%s:handler call#%d", FuncName(f), k)
+			if isExec(in) {
+				r.Check(rule, construct, w.InstrPos(in), true, "the executor loop: guarded by the cursor (C04-CURSOR, C05-NOSKIP)")
+				return
+			}
+			hook := true
+			what := ""
+			for _, lf := range valueLeaves(cc.Value) {
+				okL := false
+				for _, hf := range hooks {
+					if isLoadOfField(lf, hf) {
+						okL = true
+					}
+				}
+				if !okL {
+					hook = false
+					what = canon(lf)
+				}
+			}
+			r.Check(rule, construct, w.InstrPos(in), hook, map[bool]string{true: "an OnError / OnPanic hook: not a member of the chain", false: "the request core starts a handler (" + what + ") outside the executor loop: the abort cursor is not consulted for it, so it runs after Abort / AbortThen / AbortWithStatus and can replace the status the aborting handler chose"}[hook])
+		})
+	}
+	r.Exists(rule, "handler calls in the request core", token.NoPos, n >= 1, fmt.Sprintf("%d dynamic func(*Context) call(s) in %d function(s) of the request core", n, len(fns)))
 }
 
 func derivesFromLen(v ssa.Value, fv *types.Var) bool {
